@@ -155,7 +155,14 @@ func c07Parse(w *core.W, text string, cfg c07Cfg, kind string, files fstest.MapF
 	if after != "" {
 		w.Violation("C07/continues-after-stop/"+kind, after, wit)
 	}
-	if records > 65536+200 && strings.Count(strings.ToUpper(text), "$GENERATE") <= 1 && len(text) < 3000 {
+	// with a single $GENERATE every other line of the text accounts for at most one record
+	plainLines := 0
+	for _, ln := range strings.Split(text, "\n") {
+		if t := strings.TrimLeft(ln, " \t"); t != "" && t[0] != '$' && t[0] != ';' {
+			plainLines++
+		}
+	}
+	if records > 65536+plainLines && strings.Count(strings.ToUpper(text), "$GENERATE") <= 1 && len(text) < 3000 {
 		w.Violation("C07/generate-over-65536", fmt.Sprintf("%d records from a text of %d octets with one $GENERATE", records, len(text)), wit)
 	}
 	// allocation
@@ -456,6 +463,9 @@ func c07Crafted(w *core.W, j int) {
 		{"many-empty-lines", big(20000, "\n")},
 		{"generate-max", "$ORIGIN example.\n$GENERATE 0-65535 h$ 300 IN A 192.0.2.1\n"},
 		{"generate-over", "$ORIGIN example.\n$GENERATE 0-65536 h$ 300 IN A 192.0.2.1\n"},
+		{"generate-over", "$ORIGIN example.\n$GENERATE 1-65537 h$ 300 IN A 192.0.2.1"},
+		{"generate-over", "$ORIGIN example.\n$GENERATE 5-196613/3 h$ 300 IN A 192.0.2.1"},
+		{"generate-max", "$ORIGIN example.\n$GENERATE 5-196612/3 h$ 300 IN A 192.0.2.1"},
 		{"generate-step-over", "$ORIGIN example.\n$GENERATE 0-131073/2 h$ 300 IN A 192.0.2.1\n"},
 		{"generate-huge-range", "$ORIGIN example.\n$GENERATE 0-9223372036854775807/4611686018427387904 h$ 300 IN A 127.0.0.1\n"},
 		{"generate-huge-range2", "$ORIGIN example.\n$GENERATE 9223372036854775806-9223372036854775807 h$ 300 IN A 127.0.0.1\n"},
